@@ -72,7 +72,7 @@ CaseResult body(Chooser& ch, Stats* st) {
   int nops = 3 + (int)ch.draw(0, 27);
   std::ostringstream js; js << "{\"handles\":" << nh << ",\"ops\":[";
   std::vector<char> failed_then(nh, 0); bool nontriv = false; Hasher hh;
-  std::string fail;
+  std::string fail; bool first_op = true;
   for (int op = 0; op < nops && fail.empty(); op++) {
     int a = (int)ch.draw(0, nh - 1); int kind = (int)ch.draw(0, 17); uint64_t salt = ch.draw(0, 0xffffff); int fi = (int)(salt & 1);
     bool alive = h[a].data != nullptr;
@@ -184,7 +184,7 @@ CaseResult body(Chooser& ch, Stats* st) {
       default: skipped = true;
     }
     if (skipped) continue;
-    js << (op ? "," : "") << "\"" << name << "(" << a << ")\"";
+    js << (first_op ? "" : ",") << "\"" << name << "(" << a << ")\""; first_op = false;
     hh.adds(name); hh.add(a); hh.add(salt);
     if (st) st->label("op:" + name);
     if (fail.empty() && c_fail != t_fail) fail = name + ": the C wrapper reported " + (c_fail ? "failure" : "success") + " but the C++ operation " + (t_fail ? "failed" : "succeeded");
